@@ -24,11 +24,12 @@ def main(argv=None) -> int:
 
     logging.disable(logging.CRITICAL)
     try:
-        if sys.path[0] != "/repo":
-            sys.path.insert(0, "/repo")
+        repo = os.environ.get("VERIF_REPO", "/repo").rstrip("/")
+        if sys.path[0] != repo:
+            sys.path.insert(0, repo)
         import openpectus
-        if not os.path.abspath(openpectus.__file__).startswith("/repo/"):
-            sys.stderr.write("HARNESS-ERROR: openpectus imported from %s, not /repo\n" % openpectus.__file__)
+        if not os.path.abspath(openpectus.__file__).startswith(repo + "/"):
+            sys.stderr.write("HARNESS-ERROR: openpectus imported from %s, not %s\n" % (openpectus.__file__, repo))
             return 2
         from vp.core import framework
         mod = importlib.import_module("vp.props." + a.prop.lower())
